@@ -621,14 +621,79 @@ def run(ctx):
             ctx.part.spaces[f"{fam}:{rk}"]["cardinality"] = sizes[fam]
             ctx.part.spaces[f"{fam}:{rk}"]["bound"] = tier
         expected_cases += 2 * sizes[fam] * len(CHAINS[fam])
+    ctx.run_shards(nested_shard, ["I", "C"])
+    expected_cases += 2 * len(FAILING) * len(WRAPPERS)
+    from .. import pairhist
+    expected_cases += pairhist.run(ctx, __name__)
+    ctx.rule += (f"; {len(FAILING)} failing conversions as the direct argument of {len(WRAPPERS)} strict positions (every conversion, string(), list / map literals): the error must come out; "
+                 f"pair histories: each of {len(ph_terms())} conversion terms (failing and passing, both runners) alone and after every term including itself in one process, started from the pristine process state")
     ncases = ctx.part.nontrivial + ctx.part.unspec
     ctx.coverage_extra["cases"] = ncases
     if ncases != expected_cases:
         raise runner.HarnessError(f"enumerated {ncases} cases, cardinality is {expected_cases}")
 
 
+# ---- failing conversions as arguments, and pair histories -----------------------------------------------------
+FAILING = ['duration("315576000001s")', 'duration("-315576000001s")', 'duration("87660001h")', 'duration("1x")', 'int("abc")', 'int("9223372036854775808")', 'int("1.0")', 'uint("-1")',
+           'uint("18446744073709551616")', 'double("abc")', 'double("1e400")', 'timestamp("2020-13-01T00:00:00Z")', 'timestamp("10000-01-01T00:00:00Z")', 'string(b"\\xff")', 'int(1e300)', 'uint(-1)',
+           'int(18446744073709551615u)', 'uint(1e300)', 'int(0.0 / 0.0)']
+PASSING = ['duration("315576000000s")', 'duration("-315576000000s")', 'duration("87660000h")', 'duration("1h")', 'int("12")', 'int("9223372036854775807")', 'uint("12")', 'uint("18446744073709551615")',
+           'double("1.5")', 'double("1e308")', 'timestamp("2020-12-01T00:00:00Z")', 'timestamp("9999-12-31T23:59:59Z")', 'string(b"a")', 'int(1e18)', 'uint(1)', 'int(1u)']
+WRAPPERS = ["string({})", "int({})", "uint({})", "double({})", "bytes({})", "bool({})", "timestamp({})", "duration({})", "dyn({})", "type({})", "string({}) == \"\"", "size(string({}))",
+            "string(string({}))", "[{}]", "{{\"k\": {}}}", "string([{}][0])"]
+
+
+def nested_shard(task):
+    """A failing conversion as the direct argument of every conversion (and a few other strict positions): the error must
+    come out, never a value made from it."""
+    rk = task
+    part = runner.Part()
+    n = 0
+    for f in FAILING:
+        for wr in WRAPPERS:
+            text = wr.format(f)
+            o = celrun.Prog(rk, text).eval({})
+            part.case()
+            part.outcome(outcome.label(o))
+            n += 1
+            if o[0] != "E":
+                kind = "value-instead-of-error" if o[0] == "V" else "wrong-exception-class"
+                part.violation(kind, f"nested-failing:{rk}:{wr.format('F')}:{f.split('(')[0]}:{outcome.label(o)}", {"space": "nested", "runner": rk, "text": text},
+                               f"[{rk}] {text}: the argument {f} is an evaluation error, the whole expression gave {outcome.short(o)}")
+    part.space(f"failing conversion as argument:{rk}", n, n)
+    return part
+
+
+def ph_terms():
+    return [[rk, t] for rk in ("I", "C") for t in FAILING[:14] + PASSING[:12]]
+
+
+def ph_step(term):
+    from .. import pairhist
+    return pairhist.cel_step(term[0], term[1])
+
+
+def ph_expected(term):
+    return ("E",) if term[1] in FAILING else None
+
+
+def ph_label(term):
+    return f"[{term[0]}] {term[1]}"
+
+
+def ph_outcome_label(o):
+    return outcome.label(o) if o and o[0] in "VEPX" else str(o)
+
+
 def replay(w):
     wit = w["witness"]
+    if wit.get("space") == "pairhist":
+        from .. import pairhist
+        return pairhist.replay(w)
+    if wit.get("space") == "nested":
+        o = celrun.Prog(wit["runner"], wit["text"]).eval({})
+        print(wit["text"], "->", outcome.short(o), "(expected an evaluation error)")
+        return 0 if o[0] == "E" else 1
     rk, family, cid, x = wit["runner"], wit["family"], wit["chain"], wit["x"]
     chain = [c for c in CHAINS[family] if c[0] == cid][0]
     print("replaying", wit)
